@@ -234,7 +234,8 @@ int main() {
          std::string out;
          std::string err = vh::guarded([&] {
             cpa::detail::ArgListParser alp(av.argc, av.argv.get());
-            for (auto ai = alp.begin(); ai != alp.end(); ++ai) {
+            auto ai = alp.begin();
+            for (; ai != alp.end(); ++ai) {
                out += std::string(" ") + typeName(ai->mElementType) + "@" + std::to_string(ai->mArgIndex);
                using T = cpa::detail::ArgListElement::Type;
                if (ai->mElementType == T::singleCharArg || ai->mElementType == T::control)
@@ -242,6 +243,10 @@ int main() {
                else if (ai->mElementType == T::stringArg) out += ":" + vh::hexOut(ai->mArgString);
                else out += ":" + vh::hexOut(ai->mValue);
             }
+            // one more ++ on the end iterator (what Handler::iterateArguments() does after a sub-group
+            // argument that was the last word): must stay the end iterator, must not read behind argv
+            ++ai;
+            out += (ai == alp.end()) ? " E" : " E!";
          });
          if (!err.empty()) return err + " after" + out;
          return "ok" + out;
@@ -280,13 +285,14 @@ int main() {
       }
       if (t[1] == "eval" || t[1] == "group") {
          if (!haveCfg) return "bad-op";
-         // pa eval [file=<hexline>|<hexline>] [env=<hex>] -- words...
+         // pa eval [file=<hexline>|<hexline> | fileraw=<hex bytes of the file>] [env=<hex>] -- words...
          // pa group <member of arg 0><member of arg 1>... [order=<perm of members>] -- words...
          size_t k = 2;
          std::string fileSpec, envSpec, membership, order;
-         bool haveFile = false, haveEnv = false;
+         bool haveFile = false, haveEnv = false, fileRaw = false;
          for (; k < t.size() && t[k] != "--"; ++k) {
             if (t[k].compare(0, 5, "file=") == 0) { fileSpec = t[k].substr(5); haveFile = true; }
+            else if (t[k].compare(0, 8, "fileraw=") == 0) { fileSpec = t[k].substr(8); haveFile = true; fileRaw = true; }
             else if (t[k].compare(0, 4, "env=") == 0) { envSpec = t[k].substr(4); haveEnv = true; }
             else if (t[k].compare(0, 8, "members=") == 0) membership = t[k].substr(8);
             else if (t[k].compare(0, 6, "order=") == 0) order = t[k].substr(6);
@@ -307,7 +313,8 @@ int main() {
                std::ofstream f(".progargs/" + progBase(progName) + ".pa");
                std::istringstream is(fileSpec);
                std::string hx;
-               while (std::getline(is, hx, '|')) { std::string line; vh::hexDecodeStr(hx, line); f << line << "\n"; }
+               if (fileRaw) { std::string bytes; vh::hexDecodeStr(fileSpec, bytes); f << bytes; }   // the bytes as they are
+               else while (std::getline(is, hx, '|')) { std::string line; vh::hexDecodeStr(hx, line); f << line << "\n"; }
                f.close();
                flags |= Handler::hfReadProgArg;
             }
